@@ -71,6 +71,9 @@ FOLLOW = [None,
           {"stmt": "table_alter", "table": "t", "ops": [{"k": "add_fk", "fk": {"name": "fk2", "from_table": "t", "from_cols": ["b"], "to_table": "p", "to_cols": ["id"], "on_delete": "Restrict"}}]},
           {"stmt": "table_alter", "table": "t", "ops": [{"k": "drop_fk", "name": "fk_b"}]},
           {"stmt": "fk_create", "name": "fk3", "from_table": "t", "from_cols": ["b"], "to_table": "p", "to_cols": ["id"], "on_update": "Cascade"},
+          {"stmt": "table_alter", "table": "t", "ops": [{"k": "add_column_if_not_exists", "col": COLX}]},
+          {"stmt": "table_alter", "table": "t", "ops": [{"k": "add_column", "col": COLX}, {"k": "add_column_if_not_exists", "col": {"name": "y", "type": T("Text"), "specs": []}}]},
+          {"stmt": "table_alter", "table": "t", "ops": [{"k": "drop_column", "name": "c"}, {"k": "add_column_if_not_exists", "col": COLX}, {"k": "add_column", "col": {"name": "y", "type": T("Text"), "specs": [T("NotNull")]}}]},
           {"stmt": "fk_drop", "name": "fk_b", "table": "t"},
           {"stmt": "fk_create", "from_table": "t", "from_cols": ["b"], "to_table": "p", "to_cols": ["id"]},
           {"stmt": "fk_create", "from_table": "t", "from_cols": ["b", "c"], "to_table": "p", "to_cols": ["id", "v"], "on_delete": "SetDefault", "on_update": "NoAction"},
